@@ -354,7 +354,7 @@ def diagnose(wj, cmd, loc):
             a = parse_answer(out[1])
             if a[0] == "ok" and all(math.isfinite(v) for v in a[1]):
                 return "degenerate-parameter:mass-conserving-spline-unbounded-max-distance"
-    if wj is not None and cmd.split()[0] in ("q3", "q2", "t3", "t2") and unbounded_plate_models(wj):
+    if False and wj is not None and cmd.split()[0] in ("q3", "q2", "t3", "t2") and unbounded_plate_models(wj):     # such worlds are refused since upstream 6a8c0473
         # confirm: with a bounded plate thickness the same query answers with finite numbers
         w2 = copy.deepcopy(wj)
         for fi, mi in unbounded_plate_models(wj):
